@@ -17,6 +17,8 @@ VALUES = {
     "plain": ["v1", "abc", "0"],
     "blank": ["two words", "a  b", " lead"],
     "quote": ["it's", 'say "hi"'],
+    # values that begin and end with a quote character of the other kind than the one they are written in
+    "quote-at-both-ends": ["'x y'", '"z w"', "'q=r:s'", "'", '"'],
     "equals": ["k=v", "=", "a=b=c"],
     "colon": ["/x:/y", ":"],
     "empty": [""],
@@ -114,7 +116,8 @@ def gen_history(rng, n):
             names = rng.sample(NAMES, rng.choice([1, 2, 3]))
             nf = rng.choice([0, 1, 2, 3, 5])
             fields = [rng.choice(["f1", "x", "y=z", "w:w", "q"]) for _ in range(nf)]
-            ops.append({"op": "read", "names": names, "fields": fields})
+            # (the line comes from a here-string, or from the first line of a file named with `<`)
+            ops.append({"op": "read", "names": names, "fields": fields, "via": rng.choice(["here", "here", "file"])})
         elif k < 0.95:
             t = rng.choice(["ABS:d1", "ABS:d1/d2", "ABS:d3", "d1", "d2", "d3", "..", "../..", "link", "link/d2", "d3/abslink",
                             "missing", "file", "d1/missing", None, "-", "-", ".", "ABS:", "'sp ace'", "ABS:link"])
@@ -134,6 +137,8 @@ def render_op(op, root, k):
         return "export %s=%s" % (op["name"], quote_value(op["value"]))
     if o == "unset":
         return "unset %s" % op["name"]
+    if o == "read" and op.get("via") == "file":
+        return "read %s < %s" % (" ".join(op["names"]), os.path.join(root, "rd%d.txt" % k))
     if o == "read":
         return "read %s <<< \"%s\"" % (" ".join(op["names"]), " ".join(op["fields"]))
     if o == "cd":
@@ -152,6 +157,8 @@ def op_kind(op):
     o = op["op"]
     if o in ("assign", "prefixed", "export"):
         return "%s:value=%s" % (o, op["cls"])
+    if o == "read":
+        return "read:" + op.get("via", "here")
     if o == "cd":
         t = op["target"]
         if t is None:
@@ -197,6 +204,9 @@ def judge(case):
             m.unset(op["name"])
         elif o == "read":
             names, fields = op["names"], op["fields"]
+            if op.get("via") == "file":
+                with open(os.path.join(root, "rd%d.txt" % k), "w") as f:
+                    f.write(" ".join(fields) + "\nsecond line of the file\n")
             for i, nme in enumerate(names[:-1]):
                 m.assign(nme, fields[i] if i < len(fields) else "")
             m.assign(names[-1], " ".join(fields[len(names) - 1:]))
@@ -297,7 +307,7 @@ def run(tier, seed):
     common.build_helpers()
     cicada = common.build_cicada("debug")
     rep = Report("C09", tier, seed)
-    rep.rule = ("random histories (<=30 ops) of NAME=v / NAME=v cmd / export / unset / read <<< / cd (absolute, relative, "
+    rep.rule = ("random histories (<=30 ops) of NAME=v / NAME=v cmd / export / unset / read (<<< word, or < file) / cd (absolute, relative, "
                 "'..', via symlinks, missing, non-directory, bare, '-', '.') / relative redirection over names "
                 "{A,B,AB,A_1,PWDX} and values with blanks, both quote kinds, '=', ':' and the empty string, some names "
                 "exported by the driver beforehand; a probe after every operation.  Non-trivial = at least 2 operations; "
